@@ -14,24 +14,24 @@ import (
 const maxValidTs = math.MaxInt64 - math.MaxInt64%1000
 
 var (
-	btParent  = j.S("projects/p/instances/i")
-	btTable   = j.S("projects/p/instances/i/tables/t1")
-	btTable2  = j.S("projects/p/instances/i/tables/t2")
-	genKeys   = []j.B{j.S("a"), j.S("a\x00"), j.S("a\x00\x00"), j.S("ab"), j.S("b"), j.S("\x00"), j.S("\xff")}
-	genFams   = []j.B{j.S("f"), j.S("g")}
-	genQuals  = []j.B{j.S(""), j.S("q"), j.S("q\x00"), j.S("\xff"), j.S("r")}
-	genVals   = []j.B{j.S("x"), j.S("y"), j.S(""), j.S("\x00\xff"), {0, 0, 0, 0, 0, 0, 0, 1}, {0xff, 0xff, 0xff, 0xff, 0xff, 0xff, 0xff, 0xff}, j.S("abc")}
-	goodTs    = []int64{0, 1000, 2000, 3000, 4000, 5000, maxValidTs, maxValidTs - 1000}
-	badTs     = []int64{-1000, -2, 1500, 1, 999, maxValidTs + 1, math.MaxInt64, math.MinInt64}
+	btParent = j.S("projects/p/instances/i")
+	btTable  = j.S("projects/p/instances/i/tables/t1")
+	btTable2 = j.S("projects/p/instances/i/tables/t2")
+	genKeys  = []j.B{j.S("a"), j.S("a\x00"), j.S("a\x00\x00"), j.S("ab"), j.S("b"), j.S("\x00"), j.S("\xff")}
+	genFams  = []j.B{j.S("f"), j.S("g")}
+	genQuals = []j.B{j.S(""), j.S("q"), j.S("q\x00"), j.S("\xff"), j.S("r")}
+	genVals  = []j.B{j.S("x"), j.S("y"), j.S(""), j.S("\x00\xff"), {0, 0, 0, 0, 0, 0, 0, 1}, {0xff, 0xff, 0xff, 0xff, 0xff, 0xff, 0xff, 0xff}, j.S("abc")}
+	goodTs   = []int64{0, 1000, 2000, 3000, 4000, 5000, maxValidTs, maxValidTs - 1000}
+	badTs    = []int64{-1000, -2, 1500, 1, 999, maxValidTs + 1, math.MaxInt64, math.MinInt64}
 )
 
 type gen struct{ r *rand.Rand }
 
-func (g gen) pick(n int) int           { return g.r.Intn(n) }
-func (g gen) chance(p float64) bool    { return g.r.Float64() < p }
-func (g gen) key() j.B                 { return genKeys[g.pick(len(genKeys))] }
-func (g gen) qual() j.B                { return genQuals[g.pick(len(genQuals))] }
-func (g gen) val() j.B                 { return genVals[g.pick(len(genVals))] }
+func (g gen) pick(n int) int        { return g.r.Intn(n) }
+func (g gen) chance(p float64) bool { return g.r.Float64() < p }
+func (g gen) key() j.B              { return genKeys[g.pick(len(genKeys))] }
+func (g gen) qual() j.B             { return genQuals[g.pick(len(genQuals))] }
+func (g gen) val() j.B              { return genVals[g.pick(len(genVals))] }
 func (g gen) fam(pUnknown float64) j.B {
 	if g.chance(pUnknown) {
 		return j.S("u")
